@@ -12,7 +12,7 @@
     expressions, is accepted from some fuel on and parsed to that very vector; blocks, chains, loops and function bodies
     are markers of the flat vector, so nesting to any depth is included).  Import statements are the subject of C14/C15. *)
 From Pakhi Require Import Base Float64 Syntax Tables Lexer Parser.
-From Pakhi.Proofs Require Import ParseTotal ParseRender StmtRender.
+From Pakhi.Proofs Require Import ParseTotal ParseRender StmtRender ParseTerm.
 Local Open Scope nat_scope.
 
 Theorem C12_documented_programs_are_accepted : forall fs cwd main_path ss, prog_ok ss = true ->
@@ -85,3 +85,46 @@ Theorem C12_import_never_panics : forall fs cwd main_path fuel alias s, inv s ->
   forall s2, named_module_import fs cwd main_path fuel alias s = Ok s2 -> inv s2.
 Proof. exact named_module_import_total. Qed.
 Print Assumptions C12_import_never_panics.
+
+(* TERMINATION.  The parser model recurses on fuel (one unit per nesting level of its calls).  For every token vector that
+   ends with the end marker, 50 units per remaining token plus a constant always suffice: the result is a tree or an error
+   value, never OutOfFuel -- with C12_*_total above: for every token sequence the parser terminates with a statement
+   vector or a syntax error.  Statements and programs: for vectors without an import statement (an import splices in the
+   tokens of another file; loading is C15). *)
+Theorem C12_expression_parser_terminates : forall s, ParseTerm.eot s -> forall f, 50 * len s + 40 <= f -> fin (expression f s).
+Proof. exact expression_terminates. Qed.
+Print Assumptions C12_expression_parser_terminates.
+
+Theorem C12_every_subparser_terminates : forall f, term_ok f.
+Proof. exact expr_parser_terminates. Qed.
+Print Assumptions C12_every_subparser_terminates.
+
+Theorem C12_program_parser_terminates : forall fs cwd main_path f s, ParseTerm.eot s -> noimp s -> 50 * len s + 50 <= f ->
+  fin (pprogram fs cwd main_path f s).
+Proof. exact pprogram_terminates. Qed.
+Print Assumptions C12_program_parser_terminates.
+
+(* a statement other than the end marker consumes at least one token: the program loop cannot spin *)
+Theorem C12_every_statement_consumes_a_token : forall fs cwd main_path f s st s1, ParseTerm.eot s -> noimp s ->
+  pstmt fs cwd main_path f s = Ok (st, s1) -> advances s s1 /\ match st with FEOS _ => True | _ => len s1 < len s end.
+Proof. exact pstmt_progress. Qed.
+Print Assumptions C12_every_statement_consumes_a_token.
+
+(* lexer + parser: for every source text without an import statement, 50 units of fuel per token plus 50 are enough *)
+Theorem C12_front_end_terminates : forall fs cwd main_path src toks,
+  tokenize src main_path = Ok toks -> Forall (fun t => t_kind t <> TImport) toks ->
+  forall fuel, 50 * length toks + 50 <= fuel -> fin (front fs cwd main_path fuel src).
+Proof. exact front_terminates. Qed.
+Print Assumptions C12_front_end_terminates.
+
+Theorem C12_front_end_terminates_in_source_length : forall fs cwd main_path src,
+  match tokenize src main_path with Ok toks => Forall (fun t => t_kind t <> TImport) toks | _ => True end ->
+  forall fuel, 50 * S (length src) + 50 <= fuel -> fin (front fs cwd main_path fuel src).
+Proof. exact front_terminates_in_source_length. Qed.
+Print Assumptions C12_front_end_terminates_in_source_length.
+
+(* the bound is met by a real program: parsed with exactly that fuel *)
+Example C12_termination_bound_instance :
+  let src := [2470;2503;2454;2494;2451;32;2535;32;43;32;2536;32;42;32;40;2537;32;45;32;2535;41;59]%N in
+  match front (fun _ => None) [] [109%N] (50 * S (length src) + 50) src with Ok (_ :: _ :: _) => True | _ => False end.
+Proof. vm_compute. exact I. Qed.
